@@ -33,6 +33,9 @@ pub mod verif {
     pub mod subscriptions { pub use crate::node::subscriptions::verif_hooks::*; }
     pub mod header_session { pub use crate::p2p::header_session::verif_hooks::*; }
     pub mod header_ex_client_sim { pub use crate::p2p::header_ex_client_sim_verif_hooks::*; }
+    pub use crate::p2p::shrex_pool_tracker_verif_hooks::*;
+    pub use crate::peer_tracker::verif_hooks::*;
+    pub use crate::utils::counter_verif_hooks::*;
 }
 
 #[cfg(all(target_arch = "wasm32", test))]
